@@ -163,6 +163,20 @@ NEUTRAL_FLAVOUR[8] = ("ROUND-SPECIFIC INSTRUCTIONS (they override the numbers ab
                       "For r2 the requirement below not to rename what the tests use is lifted: change the tests in the same patch, keeping the 65 test ids as they are.")
 
 
+# round 9: growth.  The library gains one more instance of what the property quantifies over, implemented the way the existing ones are.
+NEUTRAL_FLAVOUR[9] = (
+    "ROUND-SPECIFIC INSTRUCTIONS (they override the numbers and the word 'refactoring' above): produce TWO variants r1 and r2, each a small, realistic "
+    "FEATURE ADDITION inside the property's own territory, implemented consistently with the existing code so that the property still holds for everything "
+    "it covered before AND, where it applies, for the new thing too. Pick two different kinds from what fits this property, for example: one more settable "
+    "attribute / CLI setting / property-protocol setting with its setter, getter, default and encoding; one more command or query class; one more response "
+    "class or response id handled by the dispatcher; one more capability id or reader; one more enum member for an existing setting (with the vendor value "
+    "if the protocol notes or the reference/ directory give one, otherwise a clearly unused value); one more device type or discovery field; one more "
+    "cloud endpoint helper using the same signing path; one more optional trailing field of a response parsed under a length guard; a public read-only "
+    "accessor exposing something already parsed. Follow the existing patterns exactly (same helper functions, same ordering conventions, same error "
+    "classes). Existing behaviour for existing inputs must not change at all; the 65 tests must still pass; you may add tests for the new feature in the "
+    "same patch. In notes.md say what was added and why the property still holds (including for the new instance).")
+
+
 def sh(cmd):
     return subprocess.run(cmd, shell=True, capture_output=True, text=True)
 
@@ -171,7 +185,7 @@ VERIF = os.path.dirname(os.path.dirname(os.path.abspath(__file__)))
 BASELINE = json.load(open("/root/.vp/BASELINE.json"))["stable_pass"]
 LETTERS = {3: {"a": "e", "b": "f"}, 4: {"a": "g", "b": "h"}, 5: {"a": "i", "b": "j"}, 6: {"a": "k", "b": "l", "c": "m", "d": "n"}, 7: {"a": "o", "b": "p"}, 8: {"a": "q", "b": "r"}}          # seeds: round -> variant -> suffix under /verif/seeded
 NUMBERS = {3: {"r1": "r8", "r2": "r9", "r3": "r10"}, 4: {"r1": "r11", "r2": "r12", "r3": "r13"}, 5: {"r1": "r14", "r2": "r15", "r3": "r16"},
-           6: {"r1": "r17", "r2": "r18", "r3": "r19", "r4": "r20", "r5": "r21"}, 7: {"r1": "r22", "r2": "r23", "r3": "r24"}, 8: {"r1": "r25", "r2": "r26"}}
+           6: {"r1": "r17", "r2": "r18", "r3": "r19", "r4": "r20", "r5": "r21"}, 7: {"r1": "r22", "r2": "r23", "r3": "r24"}, 8: {"r1": "r25", "r2": "r26"}, 9: {"r1": "r27", "r2": "r28"}}
 
 
 def variants(root):
